@@ -822,7 +822,7 @@ def diff(n, x, memo=None):
             elif nm == 'cbrt': r = div(da, mul(const(3), powi(n, 2)))
             elif nm == 'log': r = div(da, a)
             elif nm == 'abs': r = mul(fn('sign', a), da)
-            elif nm == 'sign': r = ZERO
+            elif nm in ('sign', 'floor', 'ceil'): r = ZERO          # piecewise constant: derivative zero almost everywhere
             elif nm in DIFF_RULES:
                 r = DIFF_RULES[nm](n, d)
             else:
